@@ -206,12 +206,14 @@ def confirm_hang(ctx, is_hang, f, *a):
     return r2
 
 
-def run_sync(mods, case):
+def run_sync(mods, case, on_step=None):
     SR, DelimiterError = mods['SR'], mods['DelimiterError']
     src = Src(case['data'], case['sched'], case['maxlen'])
     stack = [SR(src.read, case['maxlen'], case['cs'])]
     outs = []
     for i, h in enumerate(case['hist']):
+        if on_step is not None:
+            on_step(i)
         try:
             if h[0] == 'op':
                 outs.append(sync_op(stack[-1], h[1], DelimiterError, i))
@@ -722,7 +724,7 @@ def cy_session(ctx, path, start, ncases, results, limit):
     return stalled, current
 
 
-def run_cy(ctx, cases):
+def run_cy(ctx, cases, mods):
     """observations of the Cython twin for all cases.  A first-stage stall (5 CPU-seconds of the child on
     one case) is never reported directly: that case is re-run ALONE in a fresh child under CONFIRM_LIMIT
     CPU-seconds; it is a hang only if it stalls again.  Once a hang was confirmed in this run, later
@@ -741,13 +743,24 @@ def run_cy(ctx, cases):
     path = dump(cases)
     results = [None] * len(cases)
     start = 0
+    shapes = {}
+
+    def short_shape(i):
+        # the shape of the known defect: some reader's source ends before its declared length -- the
+        # top-level one, or a delimited child on which the pre-fix Python twin overruns its buffer
+        if i not in shapes:
+            c = cases[i]
+            shapes[i] = c['maxlen'] > len(c['data']) or overrun_step(mods, c)[0] is not None
+        return shapes[i]
+
     try:
         while start < len(cases):
             def first_stage(i):
                 # after a confirmed hang, stalls on cases of the same shape are only skipped (never
                 # reported), so a shorter first-stage budget there costs nothing but time
-                shape = i < len(cases) and cases[i]['maxlen'] > len(cases[i]['data'])
-                return 2.0 if (shape and _CY_CONFIRMED.get('short')) else 5.0
+                if not _CY_CONFIRMED.get('short'):
+                    return 5.0
+                return 2.0 if (i < len(cases) and short_shape(i)) else 5.0
 
             stalled, current = cy_session(ctx, path, start, len(cases), results, first_stage)
             if stalled is None:
@@ -759,7 +772,7 @@ def run_cy(ctx, cases):
                     start = current
                 continue
             c = cases[stalled]
-            short = c['maxlen'] > len(c['data'])
+            short = short_shape(stalled)
             ctx.count('stall-retried')
             ctx.cov['stall_retried'] = ctx.cov.get('stall_retried', 0) + 1
             if short and _CY_CONFIRMED.get('short'):
@@ -820,14 +833,56 @@ def prefix_twin(mods):
                 self._buffer = self._perform_read(self._chunk_size)
                 self._buffer_len = len(self._buffer)
                 self._buffer_pos = read_size
+                if read_size > self._buffer_len and _PREFIX.get('overrun') is None:
+                    # the defect's precondition: this reader's source (for a delimited child: the
+                    # parent's read_until, which stops at the delimiter) ended before the requested
+                    # size and the position now lies past the buffered data
+                    _PREFIX['overrun'] = _PREFIX.get('step', 0)
                 return result + self._buffer[:read_size]
         _PREFIX['cls'] = PreFix
     return _PREFIX['cls']
 
 
+def overrun_step(mods, case):
+    """(index of the first history entry during which some reader of the PRE-FIX Python twin -- the top-level
+    one or a delimited child, whose source always may end before its declared length -- leaves its position
+    past its buffer, or None; the pre-fix twin's observations or None)"""
+    pre_mods = dict(mods, SR=prefix_twin(mods))
+    _PREFIX['overrun'] = None
+    _PREFIX['step'] = 0
+
+    def on_step(i):
+        _PREFIX['step'] = i
+
+    try:
+        pre, _ = guarded(run_sync, pre_mods, case, on_step, limit=2.0)
+    except BaseException as e:  # noqa: BLE001 - the pre-fix twin may itself loop after the overrun (Hang)
+        if isinstance(e, (KeyboardInterrupt, SystemExit)) or type(e).__name__ == 'CheckTimeout':
+            raise
+        pre = None
+    return _PREFIX.get('overrun'), pre
+
+
+def cy_prefix_agrees(ctx, case, n, spec_res):
+    """does the built twin complete the first [n] history entries of [case] with exactly the flat cursor's
+    results?  (one fresh child under a 20 CPU-s limit)"""
+    import os
+    import pickle
+    import tempfile
+    fd, path = tempfile.mkstemp(prefix='c14-cy.', suffix='.pkl')
+    with os.fdopen(fd, 'wb') as fh:
+        pickle.dump([dict(case, hist=case['hist'][:n])], fh)
+    try:
+        single = [None]
+        st, _ = cy_session(ctx, path, 0, 1, single, 20.0)
+    finally:
+        os.unlink(path)
+    return st is None and single[0] is not None and list(single[0][0]) == list(spec_res[:n])
+
+
 def run_cy_cases(ctx, mods, model, cases, spec_outs, model_outs, tag):
     ctx.cov['cyutil_reader'] = 'built twin found in $VERIF_REPO and run through the sync correspondence'
-    impls = run_cy(ctx, cases)
+    impls = run_cy(ctx, cases, mods)
     keep = [i for i, im in enumerate(impls) if im != 'skip' and im is not None]
     cases = [cases[i] for i in keep]
     spec_outs = [spec_outs[i] for i in keep]
@@ -836,28 +891,35 @@ def run_cy_cases(ctx, mods, model, cases, spec_outs, model_outs, tag):
     obs = [im[0] for im in impls]
     ok = [abnormal(o) is None for o in obs]
     verdicts = iter(model.run_many([oracle_wire(c, True, o) for c, o, k in zip(cases, obs, ok) if k]))
-    pre_mods = dict(mods, SR=prefix_twin(mods))
-
-    def classify_for(case):
+    def classify_for(case, spec_out):
         def classify(impl_res):
-            # is the binary's observation exactly that of the Python twin before fix 1d44cb7 on a source
-            # that ends before the declared length?
-            short = case['maxlen'] > len(case['data'])
+            # is the binary's observation exactly the defect fixed in the Python twin by 1d44cb7?  Its
+            # precondition: a reader whose source ends before the declared length (the top-level reader on a
+            # short source, or a delimited child: its source stops at the delimiter) takes a read that leaves
+            # the position past the buffered data -- observed on the Python twin with _read as before the fix.
+            short_top = case['maxlen'] > len(case['data'])
+            ov, pre = overrun_step(mods, case)
+            short = short_top or ov is not None
             same = False
+            hang_after_overrun = False
             if short:
-                try:
-                    pre, _ = guarded(run_sync, pre_mods, case, limit=2.0)
-                except Exception:  # noqa: BLE001
-                    pre = None
                 # a hang inside the C code is only known for the case as a whole
                 same = pre == impl_res or (impl_res == [('hang',)] and bool(pre) and pre[-1] == ('hang',))
+                if not same and impl_res == [('hang',)] and ov is not None:
+                    # C arithmetic on the corrupt (negative) length loops where Python's happens not to: it is
+                    # the same defect iff the binary does everything BEFORE the overrunning entry like the cursor
+                    spec_res = [r_result(o[0]) for o in spec_out]
+                    hang_after_overrun = cy_prefix_agrees(ctx, case, ov, spec_res)
+                    same = hang_after_overrun
             return {'implementation': 'cyutil', 'source_shorter_than_declared_length': short,
-                    'same_as_python_twin_before_fix_1d44cb7': same}
+                    'same_as_python_twin_before_fix_1d44cb7': same,
+                    'top_level_source_short': short_top, 'position_overrun_at_entry': ov,
+                    'hang_only_after_position_overrun': hang_after_overrun}
         return classify
 
     for c, s, m, im, o, k in zip(cases, spec_outs, model_outs, impls, obs, ok):
         vstep = next(verdicts) if k else None
-        v = judge(ctx, True, c, o, s, m, vstep, im[1], tag='cyutil', extra=classify_for(c))
+        v = judge(ctx, True, c, o, s, m, vstep, im[1], tag='cyutil', extra=classify_for(c, s))
         ctx.note_case(('cy', tag, repr(sorted(c.items()))), nontrivial(c, o))
         ctx.count('cyutil-%s' % tag)
         if v:
